@@ -416,6 +416,7 @@ func (s *fakeStream) RecvMsg(m interface{}) error  { return nil }
 
 // real is one case's executor: at most one stream at a time.
 type real struct {
+	sid    string
 	rec    *recorder
 	stream *fakeStream
 	done   chan error
@@ -530,10 +531,14 @@ func (r *real) Exec(ln string) (out string) {
 		}
 		return "ok " + strings.Join(parts, " | ")
 	case "subscribe.init":
+		if len(toks) < 2 {
+			return "bad-op"
+		}
 		r.Close()
+		r.sid = toks[1]
 		rec := &recorder{dev: map[string][]devMsg{}, sent: map[*gnmi.SubscribeResponse]*gnmi.SubscribeResponse{}}
 		rec.reset()
-		for _, t := range toks[1:] {
+		for _, t := range toks[2:] {
 			if !strings.HasPrefix(t, "dev:") {
 				return "bad-op"
 			}
@@ -576,9 +581,13 @@ func (r *real) Exec(ln string) (out string) {
 		<-r.stream.ready
 		return "ok"
 	case "subscribe.msg", "subscribe.eof", "subscribe.recverr":
-		if !r.open {
+		if len(toks) < 2 {
 			return "bad-op"
 		}
+		if !r.open || toks[1] != r.sid {
+			return "no-stream"
+		}
+		toks = append([]string{toks[0]}, toks[2:]...)
 		if r.closed {
 			return "closed"
 		}
@@ -797,12 +806,19 @@ func monitor(c fw.Case, out []string) []string {
 	subscribed := false
 	over := false
 	var streamTargets []string
+	sid := ""
 	for i, ln := range c.Script {
 		if i >= len(out) {
 			break
 		}
 		toks := strings.Fields(ln)
 		o := out[i]
+		if toks[0] == "subscribe.msg" || toks[0] == "subscribe.eof" || toks[0] == "subscribe.recverr" {
+			if len(toks) < 2 || sid == "" || toks[1] != sid {
+				continue // not on the open stream (a shrunk script): nothing is claimed
+			}
+			toks = append([]string{toks[0]}, toks[2:]...)
+		}
 		switch toks[0] {
 		case "subscribe.split":
 			p := parseReqToks(toks[1:])
@@ -824,8 +840,12 @@ func monitor(c fw.Case, out []string) []string {
 				}
 			}
 		case "subscribe.init":
+			if len(toks) < 2 {
+				continue
+			}
+			sid = toks[1]
 			dev = map[string][]devMsg{}
-			for _, t := range toks[1:] {
+			for _, t := range toks[2:] {
 				th, ms, _ := strings.Cut(t[4:], "=")
 				target, _ := fw.DecStr(th)
 				dev[target] = nil
@@ -960,12 +980,17 @@ func monitor(c fw.Case, out []string) []string {
 	return fails
 }
 
+// lineOf returns the failing line's index and its tokens with the stream id removed.
 func lineOf(c fw.Case, msg string) (int, []string) {
 	var i int
 	if _, err := fmt.Sscanf(msg, "line=%d", &i); err != nil || i < 0 || i >= len(c.Script) {
 		return -1, nil
 	}
-	return i, strings.Fields(c.Script[i])
+	toks := strings.Fields(c.Script[i])
+	if toks[0] == "subscribe.msg" && len(toks) > 1 {
+		toks = append([]string{toks[0]}, toks[2:]...)
+	}
+	return i, toks
 }
 
 // sigUntargeted: entry-dropped on a request without prefix target that has both a targeted and an
@@ -1006,7 +1031,7 @@ func sigUnconnected(c fw.Case, out []string, msg string) bool {
 	for j := i; j >= 0; j-- {
 		toks := strings.Fields(c.Script[j])
 		if toks[0] == "subscribe.init" {
-			for _, t := range toks[1:] {
+			for _, t := range toks[2:] {
 				th, _, _ := strings.Cut(t[4:], "=")
 				target, _ := fw.DecStr(th)
 				if strings.Contains(msg, fmt.Sprintf("target %q has no connection", target)) {
@@ -1128,8 +1153,8 @@ func genReq(r *rng.R, tags *[]string) string {
 	return strings.Join(toks, " ")
 }
 
-func genInit(r *rng.R) string {
-	toks := []string{"subscribe.init"}
+func genInit(r *rng.R, sid string) string {
+	toks := []string{"subscribe.init", sid}
 	all := r.Chance(2, 3) // most streams have every target connected
 	for _, t := range targets {
 		if all || r.Chance(1, 2) {
@@ -1153,6 +1178,9 @@ func finish(c fw.Case) fw.Case {
 		toks := strings.Fields(ln)
 		if toks[0] != "subscribe.split" && toks[0] != "subscribe.msg" {
 			continue
+		}
+		if toks[0] == "subscribe.msg" {
+			toks = toks[1:]
 		}
 		p := parseReqToks(toks[1:])
 		if !p.ok {
@@ -1185,7 +1213,8 @@ func gen(r *rng.R, tier string) fw.Case {
 		}
 		tags = append(tags, "split")
 	} else {
-		c.Script = append(c.Script, genInit(r))
+		sid := fmt.Sprintf("s%016x", r.U64())
+		c.Script = append(c.Script, genInit(r, sid))
 		n := r.Range(1, 5)
 		first := true
 		for i := 0; i < n; i++ {
@@ -1204,13 +1233,13 @@ func gen(r *rng.R, tier string) fw.Case {
 				req = genReq(r, &tags)
 			}
 			first = false
-			c.Script = append(c.Script, "subscribe.msg "+req)
+			c.Script = append(c.Script, "subscribe.msg "+sid+" "+req)
 		}
 		switch r.Intn(4) {
 		case 0:
-			c.Script = append(c.Script, "subscribe.eof")
+			c.Script = append(c.Script, "subscribe.eof "+sid)
 		case 1:
-			c.Script = append(c.Script, "subscribe.recverr")
+			c.Script = append(c.Script, "subscribe.recverr "+sid)
 		}
 		tags = append(tags, "stream")
 	}
@@ -1235,6 +1264,7 @@ func enumerate(tier string) []fw.Case {
 		}
 	}
 	rec(nil, 4)
+	n := 0
 	for _, pfx := range []string{"pfx:nil", "pfx:" + encFields([]field{{"Elem", "a"}}), "pfx:" + encFields([]field{{"Elem", "a"}, {"Target", "t2"}})} {
 		for _, as := range all {
 			toks := []string{"S", "top:" + encFields([]field{{"Extension", "7"}}), pfx, "o:" + encFields([]field{{"Mode", "1"}, {"UpdatesOnly", "1"}})}
@@ -1247,11 +1277,13 @@ func enumerate(tier string) []fw.Case {
 				toks = append(toks, "e:"+encFields(fs)+":"+fw.EncStr(fmt.Sprintf("0.%d.false.0", i)))
 			}
 			req := strings.Join(toks, " ")
+			n++
+			sid := fmt.Sprintf("e%d", n)
 			c := fw.Case{Script: []string{
 				"subscribe.split " + req,
-				"subscribe.init dev:" + fw.EncStr("t1") + "=r" + fw.EncStr("u1") + ",r" + fw.EncStr("u2"),
-				"subscribe.msg " + req,
-				"subscribe.msg P top:-",
+				"subscribe.init " + sid + " dev:" + fw.EncStr("t1") + "=r" + fw.EncStr("u1") + ",r" + fw.EncStr("u2"),
+				"subscribe.msg " + sid + " " + req,
+				"subscribe.msg " + sid + " P top:-",
 			}, Tags: []string{"enum-assignment"}}
 			out = append(out, finish(c))
 		}
@@ -1267,12 +1299,20 @@ func shrinkCase(c fw.Case) []fw.Case {
 		if toks[0] != "subscribe.split" && toks[0] != "subscribe.msg" {
 			continue
 		}
+		head := toks[:1]
+		if toks[0] == "subscribe.msg" {
+			if len(toks) < 2 {
+				continue
+			}
+			head = toks[:2]
+			toks = append([]string{toks[0]}, toks[2:]...)
+		}
 		if len(toks) < 5 || toks[1] != "S" {
 			continue
 		}
 		emit := func(nt []string) {
 			s := append([]string{}, c.Script...)
-			s[i] = strings.Join(nt, " ")
+			s[i] = strings.Join(append(append([]string{}, head...), nt[1:]...), " ")
 			out = append(out, fw.Case{Script: s, Tags: c.Tags, Nontrivial: c.Nontrivial, Origin: c.Origin})
 		}
 		for j := 5; j < len(toks); j++ {
